@@ -21,7 +21,7 @@ func init() {
 	register(&Rule{ID: "R11.2", Props: []string{"C11"}, Floor: 4,
 		Doc: "loops start only after an OK handshake; channels are created only under handshaked.IsSet(); handlers are created only by receiveOpen",
 		Run: runR11_2})
-	register(&Rule{ID: "R11.4", Props: []string{"C11", "C03"}, Floor: 4,
+	register(&Rule{ID: "R11.4", Props: []string{"C11", "C03", "C20"}, Floor: 4,
 		Doc: "dispatch exhaustiveness: receiveMessage handles exactly the 5 channel codes; default, nested batch and duplicate open are NonOK",
 		Run: runR11_4})
 }
@@ -349,7 +349,12 @@ func runR11_2(c *Ctx, r *R) {
 	}
 }
 
-func runR11_4(c *Ctx, r *R) {
+func runR11_4(c *Ctx, registered *R) {
+	// registered for C11, C03 and C20; only "a second open frame for a live channel id is rejected" also belongs to
+	// C20 (a channel id is handed to exactly one handler; an overwriting insert starts a second one and orphans the first)
+	r := &R{c: c, rule: &Rule{ID: registered.rule.ID, Props: []string{"C11", "C03"}}}
+	rDup := &R{c: c, rule: &Rule{ID: registered.rule.ID, Props: []string{"C11", "C03", "C20"}}}
+	defer func() { registered.n += r.n + rDup.n }()
 	f := r.Need("mpx", "conn.receiveMessage")
 	if f == nil {
 		return
@@ -505,9 +510,9 @@ func runR11_4(c *Ctx, r *R) {
 							found = true
 							cl := sa.classOf(ret.Results[0], ret.Block(), false, 0)
 							if cl == SNonOK {
-								r.OK(fnKey(g)+"/duplicate-open", ret.Pos(), "duplicate channel id is a connection error")
+								rDup.OK(fnKey(g)+"/duplicate-open", ret.Pos(), "duplicate channel id is a connection error")
 							} else {
-								r.Bad(fnKey(g)+"/duplicate-open", ret.Pos(), "duplicate channel id returns a status that %s", cl)
+								rDup.Bad(fnKey(g)+"/duplicate-open", ret.Pos(), "duplicate channel id returns a status that %s", cl)
 							}
 						}
 					}
@@ -515,7 +520,7 @@ func runR11_4(c *Ctx, r *R) {
 			}
 		}
 		if !found {
-			r.Bad(fnKey(g)+"/duplicate-open", g.Pos(), "no rejection path for an open frame with an existing channel id")
+			rDup.Bad(fnKey(g)+"/duplicate-open", g.Pos(), "no rejection path for an open frame with an existing channel id")
 		}
 	}
 }
